@@ -56,6 +56,7 @@ type Path struct {
 	Blocks   []int
 	End      string // ret panic backedge cut
 	Ret      []*T
+	Heap     map[string]*T // tracked memory facts at the end of the path
 }
 
 type allocState struct {
@@ -218,7 +219,7 @@ func (e *Explorer) finish(s *pstate, start int, end string, ret []*T) {
 		e.Err = fmt.Errorf("path limit exceeded in %s", e.Fn.Name())
 		return
 	}
-	p := &Path{Fn: e.Fn, Start: start, Events: s.events, Conds: s.conds, Sets: s.sets, SetTerms: s.setT, Blocks: s.blocks, End: end, Ret: ret}
+	p := &Path{Fn: e.Fn, Start: start, Events: s.events, Conds: s.conds, Sets: s.sets, SetTerms: s.setT, Blocks: s.blocks, End: end, Ret: ret, Heap: s.heap}
 	e.paths = append(e.paths, p)
 }
 
@@ -263,7 +264,7 @@ func (e *Explorer) val(s *pstate, v ssa.Value) *T {
 // allocName qualifies the storage of an inlined callee with the callee's name,
 // so that it cannot be confused with the caller's storage of the same ordinal.
 func (e *Explorer) allocName(a *ssa.Alloc) string {
-	if a.Parent() != e.Fn {
+	if a.Parent() != e.Fn || a.Parent().Synthetic != "" {
 		return a.Parent().Name() + "." + a.Comment
 	}
 	return a.Comment
@@ -444,6 +445,12 @@ func (e *Explorer) loadLV(s *pstate, lv *T, ty types.Type) *T {
 					return r
 				}
 			}
+		}
+	}
+	// package-level data that only the package initialiser writes: its initial value
+	if e.Fn.Synthetic == "" {
+		if v, ok := e.W.initialValue(lv); ok {
+			return v
 		}
 	}
 	// fresh heap read: tag with the epoch unless the field is stable
@@ -1179,6 +1186,32 @@ func (e *Explorer) assume(s *pstate, c *T, pol bool, pos token.Pos) bool {
 			return true
 		}
 	}
+	if c.Op == "in" && len(c.A) >= 1 {
+		x := c.A[0]
+		if dom, ok := e.W.enumDomain(x.Ty); ok {
+			mask := uint64(0)
+			for _, el := range c.A[1:] {
+				if el.IsConst() && el.C >= 0 && el.C < 64 {
+					mask |= 1 << uint(el.C)
+				}
+			}
+			k := x.Key()
+			cur, have := s.sets[k]
+			if !have {
+				cur = dom
+			}
+			nw := cur & mask
+			if !pol {
+				nw = cur &^ mask
+			}
+			if nw == 0 {
+				return false
+			}
+			s.sets[k], s.setT[k] = nw, x
+			s.conds = append(s.conds, Cond{Atom: c, Val: pol, Pos: pos, Block: s.curBlk})
+			return true
+		}
+	}
 	k := c.Key()
 	if v, ok := s.atoms[k]; ok {
 		if v != pol {
@@ -1237,6 +1270,10 @@ func (e *Explorer) callEvent(s *pstate, kind string, in ssa.Instruction, c *ssa.
 	}
 	ev.Args = args
 	if kind == "call" && v != nil && e.modelBuilder(s, &ev, v) {
+		s.events = append(s.events, ev)
+		return
+	}
+	if kind == "call" && v != nil && e.modelContains(s, &ev, v) {
 		s.events = append(s.events, ev)
 		return
 	}
@@ -1649,4 +1686,36 @@ func (e *Explorer) onStack(s *pstate, fn *ssa.Function) bool {
 		}
 	}
 	return false
+}
+
+// modelContains: slices.Contains(list, x) over a list whose elements are
+// known constants (a literal, a read-only table) is the disjunction
+// x == c1 || ... || x == cn, kept as one "in" term that assume() can use to
+// narrow x when it is of an enumerated type.
+func (e *Explorer) modelContains(s *pstate, ev *Event, v ssa.Value) bool {
+	cal := ev.Callee
+	if cal == nil || len(ev.Args) != 2 || !strings.HasPrefix(fnKey(cal), "slices.Contains[") {
+		return false
+	}
+	list := stripConv(ev.Args[0])
+	n, ok := staticLen(list)
+	if !ok || n > 64 {
+		return false
+	}
+	base, fresh := freshBase(list)
+	if !fresh {
+		return false
+	}
+	var elems []*T
+	for i := int64(0); i < n; i++ {
+		lv := &T{Op: "elem", A: []*T{base, tconst(i, types.Typ[types.Int])}}
+		x := e.loadLV(s, lv, nil)
+		if !x.IsConst() && x.Op != "str" {
+			return false
+		}
+		elems = append(elems, x)
+	}
+	r := &T{Op: "in", A: append([]*T{ev.Args[1]}, elems...), Ty: v.Type()}
+	ev.Res, s.regs[v] = r, r
+	return true
 }
